@@ -198,15 +198,15 @@ Proof.
   apply within_intro. lia.
 Qed.
 
-Lemma EPS_real : (IZR (SC - EPS) < IZR SC < IZR (SC + EPS))%R.
-Proof. split; apply IZR_lt; reflexivity. Qed.
+Lemma tol_real i : (IZR (SC - tol i) <= IZR SC <= IZR (SC + tol i))%R.
+Proof. unfold tol. destruct (ilo i =? ihi i); split; apply IZR_le; unfold SC, EPS; lia. Qed.
 
 Lemma iscore_sound i s now :
   encl i s -> wf s -> within (iscore i now) (score s now) = true.
 Proof.
   intros (EP & EL & L0 & Elo & Ehi) W. pose proof W as [HP HT].
   unfold iscore, score. rewrite EP, EL. set (dt := now - last s).
-  pose proof SC_pos as Sp. pose proof EPS_real as [E1 E2].
+  pose proof SC_pos as Sp. pose proof (tol_real i) as [E1 E2].
   destruct (dt <? 0) eqn:C2; cbn [orb].
   { rewrite orb_true_r. cbn [orb]. now apply within_exact. }
   destruct (lifetime <? dt) eqn:C3; cbn [orb].
@@ -214,32 +214,36 @@ Proof.
   apply Z.ltb_ge in C2.
   destruct (dbounds dt C2) as (D0 & Dl & Dh).
   pose proof (decay_pos dt) as Dp.
+  set (plo := if dt =? 0 then ilo i else infl_dn (mul_dn (ilo i) (dlo dt))).
+  set (phi := if dt =? 0 then ihi i else infl_up (mul_up (ihi i) (dhi dt))).
+  assert (TD : (0 <= transient s * decay dt)%R) by nra.
+  assert (PB : (IZR plo <= transient s * decay dt * IZR SC <= IZR phi)%R /\ 0 <= phi).
+  { unfold plo, phi. destruct (dt =? 0) eqn:Cz.
+    - apply Z.eqb_eq in Cz. rewrite Cz, decay_0, Rmult_1_r.
+      split; [lra|]. apply le_IZR. nra.
+    - destruct (mul_dn_sound (ilo i) (dlo dt) (transient s) (decay dt) L0 D0 Elo Dl) as [M0 M].
+      destruct (infl_dn_sound (mul_dn (ilo i) (dlo dt))) as [_ I].
+      specialize (I M0). apply IZR_le in I.
+      pose proof (mul_up_sound (ihi i) (dhi dt) (transient s) (decay dt) HT ltac:(lra) Ehi Dh) as MU.
+      assert (H : 0 <= mul_up (ihi i) (dhi dt)) by (apply le_IZR; nra).
+      pose proof (infl_up_sound _ H) as IU. split; [|lia]. apply IZR_le in IU. lra. }
+  destruct PB as [[Pl Ph] P0].
   destruct (Rltb (transient s) 1) eqn:C1; cbn [orb].
   - apply Rltb_true in C1.
-    replace (SC + EPS <=? ilo i) with false.
+    replace (SC + tol i <=? ilo i) with false.
     2:{ symmetry. apply Z.leb_gt. apply lt_IZR. nra. }
     rewrite <- (wrap_small _ HP) at 2. replace (persistent s) with (persistent s + 0) at 2 by lia.
     apply within_intro. split; [lia|].
-    destruct (ihi i <? SC - EPS); [lia|].
-    apply Z.div_pos; [|reflexivity].
-    assert (0 <= mul_up (ihi i) (dhi dt)).
-    { apply cdiv_nonneg; [|reflexivity]. apply Z.mul_nonneg_nonneg; apply le_IZR; nra. }
-    pose proof (infl_up_sound _ H). lia.
+    destruct (ihi i <? SC - tol i); [lia|].
+    apply Z.div_pos; [exact P0|reflexivity].
   - apply Rltb_false in C1.
     apply within_intro. split.
-    + destruct (SC + EPS <=? ilo i).
-      * apply floor_dn.
-        destruct (mul_dn_sound (ilo i) (dlo dt) (transient s) (decay dt) L0 D0 Elo Dl) as [M0 M].
-        destruct (infl_dn_sound (mul_dn (ilo i) (dlo dt))) as [_ I].
-        specialize (I M0). apply IZR_le in I. lra.
-      * apply Zfloor_nonneg. nra.
-    + replace (ihi i <? SC - EPS) with false.
+    + destruct (SC + tol i <=? ilo i).
+      * apply floor_dn. exact Pl.
+      * apply Zfloor_nonneg. exact TD.
+    + replace (ihi i <? SC - tol i) with false.
       2:{ symmetry. apply Z.ltb_ge. apply le_IZR. nra. }
-      apply floor_up.
-      pose proof (mul_up_sound (ihi i) (dhi dt) (transient s) (decay dt) HT ltac:(lra) Ehi Dh) as M.
-      assert (TD : (0 <= transient s * decay dt)%R) by nra.
-      assert (0 <= mul_up (ihi i) (dhi dt)) by (apply le_IZR; nra).
-      pose proof (infl_up_sound _ H) as I. apply IZR_le in I. lra.
+      apply floor_up. exact Ph.
 Qed.
 
 Lemma iincrease_sound i s p t now :
@@ -248,16 +252,14 @@ Lemma iincrease_sound i s p t now :
   within (snd (iincrease i p t now)) (snd (increase s p t now)) = true.
 Proof.
   intros (EP & EL & L0 & Elo & Ehi) W Ht. pose proof W as [HP HT].
-  pose proof SC_pos as Sp. pose proof EPS_real as [E1 E2].
+  pose proof SC_pos as Sp. pose proof (tol_real i) as [E1 E2].
   assert (EN : encl (fst (iincrease i p t now)) (fst (increase s p t now))).
   { unfold iincrease, increase. cbn [fst]. rewrite EP, EL. set (dt := now - last s).
     destruct (0 <? t) eqn:Et.
     2:{ unfold encl; cbn. repeat split; try assumption; lia. }
     apply Z.ltb_lt in Et.
-    unfold encl. cbn [ipers ilo ihi ilast persistent transient last].
-    split; [reflexivity|]. split; [reflexivity|].
-    set (lo0 := if lifetime <? dt then 0 else if 0 <? dt then (if ihi i <? SC - EPS then ilo i else mul_dn (ilo i) (dlo dt)) else ilo i).
-    set (hi0 := if lifetime <? dt then 0 else if 0 <? dt then (if SC + EPS <? ilo i then mul_up (ihi i) (dhi dt) else ihi i) else ihi i).
+    set (lo0 := if lifetime <? dt then 0 else if 0 <? dt then (if ihi i <=? SC - tol i then ilo i else mul_dn (ilo i) (dlo dt)) else ilo i).
+    set (hi0 := if lifetime <? dt then 0 else if 0 <? dt then (if SC + tol i <? ilo i then mul_up (ihi i) (dhi dt) else ihi i) else ihi i).
     set (T0 := if lifetime <? dt then 0%R else if Rltb 1 (transient s) && (0 <? dt) then (transient s * decay dt)%R else transient s).
     assert (B : 0 <= lo0 /\ (IZR lo0 <= T0 * IZR SC <= IZR hi0)%R).
     { unfold lo0, hi0, T0. destruct (lifetime <? dt); [simpl; split; [lia|lra]|].
@@ -271,15 +273,15 @@ Proof.
       assert (TSd : (transient s * decay dt * IZR SC <= transient s * IZR SC)%R) by nra.
       destruct (Rltb 1 (transient s)) eqn:C1.
       - apply Rltb_true in C1.
-        replace (ihi i <? SC - EPS) with false.
-        2:{ symmetry. apply Z.ltb_ge. apply le_IZR. nra. }
+        replace (ihi i <=? SC - tol i) with false.
+        2:{ symmetry. apply Z.leb_gt. apply lt_IZR. nra. }
         split; [exact M0|]. split; [lra|].
-        destruct (SC + EPS <? ilo i); [lra|lra].
+        destruct (SC + tol i <? ilo i); [lra|lra].
       - apply Rltb_false in C1.
-        replace (SC + EPS <? ilo i) with false.
+        replace (SC + tol i <? ilo i) with false.
         2:{ symmetry. apply Z.ltb_ge. apply le_IZR. nra. }
-        split; [destruct (ihi i <? SC - EPS); lia|]. split; [|lra].
-        destruct (ihi i <? SC - EPS); [lra|lra]. }
+        split; [destruct (ihi i <=? SC - tol i); lia|]. split; [|lra].
+        destruct (ihi i <=? SC - tol i); [lra|lra]. }
     destruct B as (B0 & Bl & Bh).
     assert (TS : 0 <= t * SC) by (apply Z.mul_nonneg_nonneg; [lia|discriminate]).
     destruct (infl_dn_sound (lo0 + t * SC)) as [I0 I]. specialize (I ltac:(lia)).
@@ -287,13 +289,18 @@ Proof.
     { pose proof (IZR_le _ _ B0). assert (0 <= hi0) by (apply le_IZR; lra). lia. }
     pose proof (infl_up_sound _ H0) as IU.
     apply IZR_le in I. apply IZR_le in IU. rewrite plus_IZR, mult_IZR in I, IU.
-    split; [exact I0|]. lra. }
+    fold T0.
+    destruct (lo0 =? hi0); unfold encl; cbn [ipers ilo ihi ilast persistent transient last].
+    - split; [reflexivity|]. split; [reflexivity|]. split; [lia|].
+      rewrite !plus_IZR, !mult_IZR. lra.
+    - split; [reflexivity|]. split; [reflexivity|]. split; [exact I0|]. lra. }
   split; [exact EN|].
   assert (W' : wf (fst (increase s p t now))) by (apply increase_wf; assumption).
   destruct EN as (EP' & EL' & L0' & Elo' & Ehi').
   assert (SO : snd (iincrease i p t now) =
                (ipers (fst (iincrease i p t now)), ilo (fst (iincrease i p t now)) / SC, ihi (fst (iincrease i p t now)) / SC)).
-  { unfold iincrease. cbn [fst snd]. destruct (0 <? t); reflexivity. }
+  { unfold iincrease. cbn [fst snd]. destruct (0 <? t); [|reflexivity].
+    match goal with |- context [if ?c =? ?d then _ else _] => destruct (c =? d) end; reflexivity. }
   assert (SR : snd (increase s p t now) =
                wrap (persistent (fst (increase s p t now)) + Zfloor (transient (fst (increase s p t now))))).
   { unfold increase. cbn [fst snd]. destruct (0 <? t); reflexivity. }
